@@ -402,6 +402,20 @@ function specialLayouts() {
   out.push({ name: "corner:default-import-through-export-list", files: { "a.ts": 'type T = "a";\nexport default T;', "b.ts": 'import D from "./a";\nexport { D };', "entry.ts": 'import { D } from "./b";\n' + P("A: D") }, expect: { A: [['"a"', true], ['"b"', false]] } });
   out.push({ name: "corner:file-names-that-sanitise-alike", files: { "a-b.ts": 'export type X = { p: 1 };', "a_b.ts": 'export type X = { q: 2 };', "entry.ts": 'import { X as X1 } from "./a-b";\nimport { X as X2 } from "./a_b";\n' + P("A: X1, B: X2, C: { l: X1, r: X2 }") }, expect: { A: [['({"p": 1})', true], ['({"q": 2})', false]], B: [['({"q": 2})', true], ['({"p": 1})', false]], C: [['({"l": {"p": 1}, "r": {"q": 2}})', true], ['({"l": {"q": 2}, "r": {"p": 1}})', false]] } });
   out.push({ name: "corner:dir-and-file-names-that-sanitise-alike", files: { "a/b.ts": 'export type X = { p: 1 };', "a_b.ts": 'export type X = { q: 2 };', "entry.ts": 'import { X as X1 } from "./a/b";\nimport { X as X2 } from "./a_b";\n' + P("A: X1, B: X2, C: { l: X1, r: X2 }") }, expect: { A: [['({"p": 1})', true], ['({"q": 2})', false]], B: [['({"q": 2})', true], ['({"p": 1})', false]], C: [['({"l": {"p": 1}, "r": {"q": 2}})', true], ['({"l": {"q": 2}, "r": {"p": 1}})', false]] } });
+  // the head of a qualified type name (Color.Red, ns.N) arriving through chains of by-name re-exports
+  {
+    const leaf = 'export enum Color { Red = "red", Blue = "blue" }\nexport type N = { n: 1 };';
+    const E = (head) => ({ A: [['"red"', true], ['"blue"', false], ['"b-private-red"', false]] });
+    const chains = {
+      "two-hops": { "c.ts": leaf, "b.ts": 'export { Color } from "./c";', "a.ts": 'export { Color } from "./b";' },
+      "hop-then-star": { "c.ts": leaf, "b.ts": 'export * from "./c";', "a.ts": 'export { Color } from "./b";' },
+      "hop-then-renaming-list": { "c.ts": leaf, "b.ts": 'import { Color as C } from "./c";\nexport { C as Color };', "a.ts": 'export { Color } from "./b";' },
+      "hop-past-a-private-namesake": { "c.ts": leaf, "b.ts": 'enum Color { Red = "b-private-red" }\nexport { Color as Mine };\nexport { Color } from "./c";'.replace('export { Color } from "./c";', 'export { Color as Color2 } from "./c";'), "a.ts": 'export { Color2 as Color } from "./b";' },
+      "one-hop": { "c.ts": leaf, "a.ts": 'export { Color } from "./c";' },
+    };
+    for (const [n, files] of Object.entries(chains)) out.push({ name: "corner:qualified-head-through-reexports:" + n, files: { ...files, "entry.ts": 'import { Color } from "./a";\n' + P("A: Color.Red") }, expect: E() });
+    out.push({ name: "corner:qualified-head-through-reexports:namespace", files: { "c.ts": leaf, "b.ts": 'export * as ns from "./c";', "a.ts": 'export { ns } from "./b";', "entry.ts": 'import { ns } from "./a";\n' + P("A: ns.N, B: ns.Color.Red") }, expect: { A: [['({"n": 1})', true], ['({"n": 2})', false]], B: [['"red"', true], ['"blue"', false]] } });
+  }
   out.push({ name: "corner:export-default-interface", files: { "a.ts": 'export default interface I { i: 1 }', "entry.ts": 'import I from "./a";\n' + P("A: I") }, expect: { A: [['({"i": 1})', true], ['({"i": 2})', false]] } });
   // same name declared differently in two files, both used
   out.push({
